@@ -174,6 +174,11 @@ def riemann_runs(ctx, rng, idx):
     mesh, mdesc = gen.mesh1d(rng, kind="uni", ncell=n)
     bc = str(rng.choice(["per", "sym"]))
     prim, kind = _data(rng, n, eqn, model)
+    if eqn == "euler" and rng.random() < 0.2:
+        # the same flow in other UNITS (a diffuse gas in CGS: p ~ 1e-18): density and pressure scaled together, Mach numbers unchanged
+        un = float(10 ** rng.uniform(-25, 25))
+        prim = [prim[0] * un, prim[1], prim[2] * un]
+        kind = kind + " x units %.3g" % un
     intdata = bool(rng.random() < 0.1)
     if intdata:
         # integer-typed admissible data (a user writing np.where(x < .5, 10, 1)): gas/water at rest with integer density, pressure, depth
